@@ -130,14 +130,16 @@ func (vfs *MemFS) VolumeDelete(path string) error {
 		return &fs.PathError{Op: op, Path: path, Err: avfs.ErrVolumeNameInvalid}
 	}
 
-	_, ok := vfs.volumes[vol]
+	root, ok := vfs.volumes[vol]
 	if !ok {
 		return &fs.PathError{Op: op, Path: path, Err: avfs.ErrVolumeNameInvalid}
 	}
 
-	err := vfs.RemoveAll(vol)
+	// The root directory of the volume can't be removed by RemoveAll :
+	// release its content, then forget the volume.
+	err := vfs.removeAll(root)
 	if err != nil {
-		return err
+		return &fs.PathError{Op: op, Path: path, Err: err}
 	}
 
 	delete(vfs.volumes, vol)
